@@ -138,17 +138,24 @@ func genHistory(t *rapid.T, n int, distinctRTD bool) []sample {
 		if wander > 0 {
 			th += rapid.Int64Range(-wander, wander).Draw(t, "dtheta")
 		}
-		for distinctRTD && seen[d1+d2] {
+		// a server whose reported turnaround (transmit - receive timestamp) is longer than it really was - coarse or
+		// stepped server clock - makes the measured round-trip delay smaller than the path delay, even negative
+		extra := int64(0)
+		if rapid.IntRange(0, 3).Draw(t, "overreported-turnaround") == 0 {
+			extra = rapid.Int64Range(0, d1+d2+int64(time.Millisecond)).Draw(t, "extra")
+		}
+		for distinctRTD && seen[d1+d2-extra] {
 			d2++
 		}
-		seen[d1+d2] = true
+		seen[d1+d2-extra] = true
 		s := mk(t0, th, d1, p, d2)
+		s.T2 += extra
 		h = append(h, s)
 	}
 	return h
 }
 
-var recLucky = ev.New("c17/lucky-packet", "rapid: capacity 1..32, pick 1..40 (and the zero-value filter), histories of 1..100 exchanges (true offset within +-1 day, one-way delays 0..2 s made pairwise distinct in round-trip delay, Reset() at generated positions); oracle: naive reference (last <=N samples since the last reset, k=min(pick,N,available) lowest exact round-trip delays, median of exact integer offsets; even count within 1 ns of the midpoint). One evaluation = one history. Non-trivial: history containing a full window with pick < capacity; distinct by history hash")
+var recLucky = ev.New("c17/lucky-packet", "rapid: capacity 1..32, pick 1..40 (and the zero-value filter), histories of 1..100 exchanges (true offset within +-1 day, one-way delays 0..2 s and, for a quarter of the samples, an over-reported server turnaround (measured round-trip delay down to negative values), pairwise distinct in round-trip delay, Reset() at generated positions); oracle: naive reference (last <=N samples since the last reset, k=min(pick,N,available) lowest exact round-trip delays, median of exact integer offsets; even count within 1 ns of the midpoint). One evaluation = one history. Non-trivial: history containing a full window with pick < capacity; distinct by history hash")
 
 func TestPropLucky(t *testing.T) {
 	vt.Check(t, 60000, 400000, func(t *rapid.T) {
